@@ -404,6 +404,9 @@ def doc_has_call_in_ccall_args(doc):
 
 
 # ------------------------------------------------------------------ directed: what `caller` is, and for whom
+_DECO = '<%!\ndef deco(fn):\n    def wrapper(context, *a, **k):\n        context.write("<")\n        fn(*a, **k)\n        context.write(">")\n        return ""\n    return wrapper\n%>'
+_ITEM = '<%def name="it(x, y=\'d\', *r, sep=\'-\', **e)" decorator="deco">${x}${sep}${y}${sep}${len(r)}${sep}${sorted(e.items())}</%def>'
+_ITEM_OUT = "<1-g-0-[]>|<2+p+1+[]>|<3-d-0-[('k', 7)]>"
 CALLER_SCENARIOS = [
     # (name, template, expected output, finding id when the known quirk output is seen, quirk output)
     ("plain-call-has-no-caller", '<%def name="g()">[g:${"C1" if caller else "C0"}]</%def>${g()}', "[g:C0]", None, None),
@@ -446,6 +449,16 @@ CALLER_SCENARIOS = [
      "<[nx]>[ny]", None, None),
     ("decorated-nested-def-by-name", '<%!\ndef deco(fn):\n    def go(context, *a, **k):\n        context.write("<")\n        fn(*a, **k)\n        context.write(">")\n        return ""\n    return go\n%>'
                                      '<%def name="o()"><%def name="inner()" decorator="deco">[in]</%def>${inner()}</%def>${o()}', "<[in]>", None, None),
+    # decorator= wraps the call and leaves the binding of the arguments to Python: keywords, extra positionals,
+    # keyword-only values and **kw reach a decorated def exactly as they reach an undecorated one
+    ("decorated-nested-def-keywords", _DECO + '<%def name="o()">' + _ITEM + "${it(1, y='g')}|${it(2, 'p', 'r1', sep='+')}|${it(3, k=7)}</%def>${o()}", _ITEM_OUT, None, None),
+    ("decorated-toplevel-def-keywords", _DECO + _ITEM + "${it(1, y='g')}|${it(2, 'p', 'r1', sep='+')}|${it(3, k=7)}", _ITEM_OUT, None, None),
+    ("decorated-def-in-block-keywords", _DECO + '<%block name="b">' + _ITEM + "${it(1, y='g')}|${it(2, 'p', 'r1', sep='+')}|${it(3, k=7)}</%block>", _ITEM_OUT, None, None),
+    ("decorated-def-in-anonymous-block-keywords", _DECO + "<%block>" + _ITEM + "${it(1, y='g')}|${it(2, 'p', 'r1', sep='+')}|${it(3, k=7)}</%block>", _ITEM_OUT, None, None),
+    ("decorated-call-def-keywords", _DECO + "<%def name=\"w()\">${caller.it(1, y='g')}|${caller.it(2, 'p', 'r1', sep='+')}|${caller.it(3, k=7)}</%def><%call expr=\"w()\">" + _ITEM + "</%call>",
+     _ITEM_OUT, None, None),
+    ("decorated-def-through-self-keywords", _DECO + _ITEM + "${self.it(1, y='g')}|${self.it(2, 'p', 'r1', sep='+')}|${self.it(3, k=7)}", _ITEM_OUT, None, None),
+    ("decorated-def-through-ns-tag-keywords", _DECO + _ITEM + '<%self:it x="1" y="g"/>|<%self:it x="3" k="${7}"/>', "<1-g-0-[]>|<3-d-0-[('k', 7)]>", None, None),
 ]
 
 
